@@ -21,13 +21,20 @@ kind=secret  : `cfg=<hex|-> n=<conns> calls=<calls per conn>` [`rand=<chunk>/<st
 kind=server  : `cfg=<hex|-> peers=<addr hex>;<addr hex> hellos=H;H;… steps=<step>,<step>,…`
                step = `<a|b>:<hello idx>:<cookie ref>:<p|o>:<fragments>[:<n>|<n>r]`  (n hellos in the one datagram: packed into one record | one record each)
                or `<a|b>:w:<ms>` (the peer stays silent for that long)
+               or `<a|b>:<hello idx>:<cookie ref>:<p|o|q>:F<off>+<len>.<off>+<len>…` (the hello body as that
+               series of fragments, any order / repeats / overlaps / fragments after completion, all
+               under the hello's message_seq, one datagram each; observed after EVERY datagram:
+               `r|r|…`, ending with `acc` if the server accepts)
                optional case token `rto=<ms>` = InitialRetransmitTimeout (max = 2x), default: never
                source `p` = the connection's peer, `o` = an unrelated address, `q` = the peer's host
                with another port
                cookie ref = `-` | `k<i>` (cookie of the i-th HelloVerifyRequest seen) | `x<i>.<pos>` | `r`
                           | `g<n>` (rand only, n < 16: forged for this address and hello under the
                             secret made of the first n bytes of the connection's random stream and zeros)
+                          | `e` (forged for this address and hello under the empty HMAC key)
                optional case tokens:
+               `cfgempty=1` (with cfg=-, also kind=secret) Config.CookieSecret is a non-nil slice of
+                            length 0 instead of nil: no secret is configured either way
                `pk=<k><k>` what the two peers are: `s` an opaque net.Addr printing the given text
                             (default), `u` a *net.UDPAddr made from the text host:port, `m` the same
                             with the IPv4 address held in its 16-byte IPv4-mapped form; for u/m the
@@ -231,6 +238,13 @@ structure Step where
   pack : Nat := 1      -- complete ClientHello messages in the one datagram (frags = 1)
   oneRecord : Bool := true   -- … packed into one record / one record each
   wait : Nat := 0      -- > 0: no datagram, the peer stays silent for this many milliseconds
+  fragList : List (Nat × Nat) := []   -- non-empty: the hello as these (offset, length) fragments, one datagram each
+
+def parseFragList (s : String) : Option (List (Nat × Nat)) :=
+  (s.splitOn ".").mapM fun f =>
+    match f.splitOn "+" with
+    | [o, l] => do pure ((← o.toNat?), (← l.toNat?))
+    | _ => none
 
 def parseStep (s : String) : Option Step :=
   match s.splitOn ":" with
@@ -242,9 +256,14 @@ def parseStep (s : String) : Option Step :=
   | [c, h, r, f, k] => do
     let conn ← if c == "a" then some 0 else if c == "b" then some 1 else none
     let hi ← h.toNat?
+    if k.startsWith "F" then
+      let fl ← parseFragList (String.ofList (k.toList.drop 1))
+      if fl.isEmpty then none else
+      pure { conn := conn, hello := hi, ref := r, own := f == "p", frags := 1, fragList := fl }
+    else
     let kk ← k.toNat?
     if kk == 0 then none else
-    pure ⟨conn, hi, r, f == "p", kk, 1, true, 0⟩
+    pure ⟨conn, hi, r, f == "p", kk, 1, true, 0, []⟩
   | [c, h, r, f, k, pk] => do
     let conn ← if c == "a" then some 0 else if c == "b" then some 1 else none
     let hi ← h.toNat?
@@ -252,7 +271,7 @@ def parseStep (s : String) : Option Step :=
     let perRec := pk.endsWith "r"
     let pp ← (if perRec then String.ofList (pk.toList.take (pk.length - 1)) else pk).toNat?
     if kk != 1 || pp == 0 then none else
-    pure ⟨conn, hi, r, f == "p", 1, pp, !perRec, 0⟩
+    pure ⟨conn, hi, r, f == "p", 1, pp, !perRec, 0, []⟩
   | _ => none
 
 /-- an issued cookie: (secret symbol, MAC input, spec binding) -/
@@ -266,6 +285,7 @@ forged under a guess that knows this many bytes of the connection's random strea
 def resolveRef (issued : List Issued) (r : String) : Option (Bool × Option Issued × Bool × Option Nat) :=
   if r == "-" then some (false, none, false, none)
   else if r == "r" then some (true, none, true, none)
+  else if r == "e" then some (true, none, false, none)
   else match r.toList with
   | 'k' :: rest => (String.ofList rest).toNat?.map fun i => (true, issued[i]?, false, none)
   | 'x' :: rest =>
@@ -309,6 +329,45 @@ def parseReaction (s : String) : Option Spec.Cookie.Reaction :=
     let key ← ky.toNat?
     pure ⟨req, 1, sizes, types, alerts, key⟩
   | _ => none
+
+/-- model of a fragment step: the reaction to each datagram (`delivered` = `rxFragments`: does the
+datagram make `readHandshake` deliver the hello; `action` = what the cookie loop does with this
+hello), the number of HelloVerifyRequests, and whether the loop was left. `?` = not predicted. -/
+def fragModel (action : Action) (frs : List (Nat × Nat)) (delivered : List Bool) : List String × Nat × Bool :=
+  go frs delivered [] 0
+where
+  go : List (Nat × Nat) → List Bool → List String → Nat → List String × Nat × Bool
+  | [], _, acc, k => (acc.reverse, k, false)
+  | _ :: _, [], acc, k => (("?" :: acc).reverse, k, false)
+  | (_, len) :: rest, d :: ds, acc, k =>
+    let dl := rh + hh + len
+    if !d then go rest ds (s!"0/-/-/0/{dl}/0" :: acc) k
+    else match action with
+      | .proceed => (("acc" :: acc).reverse, k, true)
+      | .hvr n => go rest ds (s!"1/{Facts.dtlcp.typeHelloVerifyRequest}/{datagramLen rh hh (hvrBodyLen n)}/0/{dl}/0" :: acc) (k + 1)
+
+/-- the property's verdict on a fragment step: the reactions before an acceptance are judged
+datagram by datagram (`Spec.Cookie.judgeFragmented`); an acceptance needs a complete hello with
+a cookie that must be accepted; a complete hello with such a cookie must be accepted -/
+def judgeFragStep (total : Nat) (frs : List (Nat × Nat)) (obs : List String) (must : Bool) (breach : String) :
+    Option (String × String) :=
+  let pre := obs.takeWhile (· != "acc")
+  let accepted := pre.length < obs.length
+  match pre.mapM parseReaction with
+  | none => some ("shape", "unparseable reaction")
+  | some rs =>
+    if rs.length > frs.length || (!accepted && rs.length != frs.length) then some ("shape", "one reaction per fragment datagram expected") else
+    let ds := (frs.zip rs).map fun (f, r) => (⟨f.1, f.2, r⟩ : Spec.Cookie.FragDatagram)
+    match Spec.Cookie.judgeFragmented total ds with
+    | some x => some x
+    | none =>
+      if accepted then
+        if Spec.Cookie.timesCovered total (frs.take (pre.length + 1)) == 0 then
+          some ("binding", "a handshake was started by datagrams that make up no complete ClientHello")
+        else if must then none else some ("binding", "cookie accepted for " ++ breach)
+      else if must && Spec.Cookie.timesCovered total frs > 0 then
+        some ("rejects-valid", "the issued cookie was refused for its own address, parameters and secret")
+      else none
 
 def judgeServer (ct ot : List String) : Option Verdict := do
   let cfg ← kvHex ct "cfg"
@@ -367,6 +426,7 @@ def judgeServer (ct ot : List String) : Option Verdict := do
       let o := obs.headD ""
       let r? := (parseReaction o).map fun r => { r with hellos := st.pack }
       let binding : Spec.Cookie.Binding := ⟨keyOf st.conn, peer, toSpec h⟩
+      if !st.fragList.isEmpty && (!st.own || dead.contains st.conn || !versionOk Facts.dtlcp.VersionTLCP h.vers) then none else
       if st.own && !dead.contains st.conn && !started.contains st.conn
           && !versionOk Facts.dtlcp.VersionTLCP h.vers then
         -- first hello of the connection, version selection fails: protocol_version alert, connection over
@@ -390,14 +450,33 @@ def judgeServer (ct ot : List String) : Option Verdict := do
           | none, some n, some (_, streams) =>
             -- forged for exactly this input under a guessed secret: valid iff the guess is the key
             sameKey ((streams.getD st.conn []).take n ++ List.replicate (secretLen - n) 0) (keyOf st.conn)
-          | none, _, _ => false
-        let neverIssued := match forged with
+          -- forged under the empty key: valid iff the connection's key is the empty one (RFC 2104:
+          -- or all zeros) — never for a drawn or a configured secret
+          | none, _, _ => st.ref == "e" && sameKey [] (keyOf st.conn)
+        let neverIssued := if st.ref == "e" then "a cookie that was never issued (forged under the empty HMAC key)" else match forged with
           | some n => s!"a cookie that was never issued (forged under a secret guessed from {n} byte(s) of the connection's random source)"
           | none => "a cookie that was never issued"
         -- the property's verdict on an acceptance / refusal
         let must := match src with
           | some i => Spec.Cookie.mustAccept i.binding binding altered
           | none => false
+        if !st.fragList.isEmpty then
+          -- the hello as a series of fragment datagrams, each observed on its own; leftover buffers
+          -- of earlier steps are filed under other message_seq values and play no part
+          let total := body.length + cookieLen
+          if st.fragList.any (fun f => f.1 + f.2 > total) then none else
+          let delivered := if Facts.dtlcp.cookieRxDeliveredBufferDropped
+            then rxFragments Facts.dtlcp.rxTotalMismatchFatal total [] st.fragList else []
+          let (ms, answers, proceeded) := fragModel (loopStep (!nonEmpty) valid macLen) st.fragList delivered
+          let breach := match src with
+            | some i => Spec.Cookie.bindingBreach i.binding binding altered
+            | none => if nonEmpty then neverIssued else "an empty cookie"
+          let f := match fail with
+            | some x => some x
+            | none => judgeFragStep total st.fragList (o.splitOn "|") must breach
+          go rest obs.tail (issued ++ List.replicate answers ⟨keyOf st.conn, input, binding⟩) proceeded
+            (st.conn :: started) dead ("|".intercalate ms :: outs) f
+        else
         match loopStep (!nonEmpty) valid macLen with
         | .proceed =>
           let f := match fail with
@@ -436,14 +515,14 @@ def judgeServer (ct ot : List String) : Option Verdict := do
   -- the accepted hello names a session the server has cached: an abbreviated handshake (no
   -- certificate, no private-key operation) is what the protocol prescribes then
   let resumable := (do
-    let i ← outs.findIdx? (· == "acc")
+    let i ← outs.findIdx? (fun (x : String) => x.endsWith "acc")
     let st ← steps[i]?
     let h ← hellos[st.hello]?
     pure (cache.any fun e => e.1 == h.sessionId)).getD false
   let fail2 := match fail with
     | some x => some x
     | none =>
-      if done && obsSteps.getLast? == some "acc" && !resumable then
+      if done && ((obsSteps.getLast?.map (fun (x : String) => x.endsWith "acc")).getD false) && !resumable then
         match flight.splitOn "/" with
         | [ty, ky] =>
           match parseNatList ty, ky.toNat? with
